@@ -77,11 +77,59 @@ def chain_walkers(ctx):
                 if is_call(base, ("ext:itertools.pairwise",)) and len(base[2]) == 1:
                     ctx.ob("S5", "walker|%s|pairs" % q, ev[1].loc(), "%s walks a chain of roots over itertools.pairwise: consecutive, overlapping pairs" % q, True)
                     continue
+                verdict = _cursor_walker(prog, fi, ev[1], target)
+                if verdict is not None:
+                    ok_c, text_c = verdict
+                    ctx.ob("S5", "walker|%s|cursor" % q, ev[1].loc(), "%s walks a chain of roots with a cursor: %s" % (q, text_c), ok_c)
+                    continue
                 raise AnalysisError("C04: %s at %s loops around verify_root over %s - a chain walker whose pairing of trusted and offered roots the analysis does not recognise (no verdict)" % (q, ev[1].loc(), show(base)[:80]))
             for ev in all_events(p.events):
                 if ev[0] == "while" and (ev[1], "while") not in seen and any(reaches(bp[2]) for bp in ev[2]):
                     raise AnalysisError("C04: %s at %s has a while loop around verify_root - a chain walker the analysis does not follow (no verdict)" % (q, ev[1].loc()))
     ctx.count("S5.functions_reaching_verify_root", len(reach))
+
+
+def _cursor_walker(prog, fi, site, target):
+    """the walker idiom `cur = trusted; for offer in offers: verify_root(cur, offer); cur = offer`:
+    the loop body (top level, in this order) calls the verifier with (cursor variable, loop
+    variable) outside any try statement and then rebinds the cursor to the loop variable, nothing
+    else assigns either, and no continue / break stands before the rebinding.
+    -> (ok, text), or None when the loop is not of this shape"""
+    import ast
+
+    from sa.model import dotted_chain
+
+    loop = None
+    for n in ast.walk(fi.node):
+        if isinstance(n, ast.For) and n.lineno == site[1] and isinstance(n.target, ast.Name):
+            loop = n
+    if loop is None:
+        return None
+    offer = loop.target.id
+    call_i = cur = None
+    for i, st in enumerate(loop.body):
+        if isinstance(st, ast.Expr) and isinstance(st.value, ast.Call) and len(st.value.args) >= 2 and all(isinstance(a, ast.Name) for a in st.value.args[:2]):
+            chain = dotted_chain(st.value.func)
+            r = prog.resolve_dotted(fi.mod, chain)[0] if chain else ("?",)
+            if r[0] == "func" and r[1] == target and st.value.args[1].id == offer:
+                call_i, cur = i, st.value.args[0].id
+                break
+    if call_i is None or cur == offer:
+        return None
+    rebind_i = None
+    for i, st in enumerate(loop.body):
+        if i > call_i and isinstance(st, ast.Assign) and len(st.targets) == 1 and isinstance(st.targets[0], ast.Name) and st.targets[0].id == cur and isinstance(st.value, ast.Name) and st.value.id == offer:
+            rebind_i = i
+            break
+    others = [x for st in loop.body for x in ast.walk(st) if isinstance(x, ast.Name) and isinstance(x.ctx, ast.Store) and x.id in (cur, offer)]
+    if rebind_i is None:
+        return (False, "verify_root(%s, %s) is called in the loop but %s is never moved on to the offer just accepted: every offer is judged by the first root" % (cur, offer, cur))
+    if len(others) != 1:
+        return None
+    between = [x for st in loop.body[: rebind_i + 1] for x in ast.walk(st) if isinstance(x, (ast.Continue, ast.Break, ast.Try, ast.Return))]
+    if between:
+        return None
+    return (True, "each offer is verified with verify_root(%s, %s) against the root accepted just before it, and %s moves on only after that call has returned" % (cur, offer, cur))
 
 
 def run(ctx):
